@@ -53,3 +53,41 @@ func TestDebugReplay(t *testing.T) {
 		os.RemoveAll(dir)
 	}
 }
+
+// TestDebugC07 prints the cache directory before and after the failing subset of a saved C07 case.
+func TestDebugC07(t *testing.T) {
+	var c c07Case
+	ok, err := ev.LoadReplay("C07", "Subsets", &c)
+	if !ok || err != nil {
+		t.Skip("no replay")
+	}
+	fmt.Println("hashes:", moduleHashes(c.Prog))
+	u, _ := buildUniverse(c)
+	for i, n := range u.names {
+		fmt.Println("U", i, n)
+	}
+	for si, sub := range c.Subsets {
+		keep := resolveSubset(sub, len(u.names))
+		dir := newDir()
+		files := map[string][]byte{}
+		for i, rel := range u.names {
+			if keep[i] {
+				files[rel] = u.files[rel]
+			}
+		}
+		writeTree(dir, files)
+		S := execute(c.Prog, c.Run, c.Seg, c.Head, dir, false)
+		fmt.Printf("subset %d kept=%d err=%v jobs=%+v\n", si, len(files), S.res.Err != nil, S.res.Jobs)
+		if S.res.Err != nil {
+			for rel := range files {
+				fmt.Println("  before:", rel)
+			}
+			for rel := range readTree(dir) {
+				if _, had := files[rel]; !had {
+					fmt.Println("  new:", rel)
+				}
+			}
+		}
+		os.RemoveAll(dir)
+	}
+}
